@@ -775,6 +775,21 @@ def PRes.outcome (r : PRes) : Outcome :=
       | some v => .ret v
       | none => .ret .null
 
+/-- Processor.Execute: `if err == nil && flow == Terminate && proc.Tx.AutoCommit { err = proc.AutoCommit(ctx) }` —
+    whether a non-interactive run commits the changes the procedure made -/
+def PRes.commits (r : PRes) : Bool :=
+  match r.err with
+  | some _ => false
+  | none => match r.flow with
+    | .terminate => true
+    | _ => false
+
+/-- the documented rule: only a procedure that ran to its end is committed (EXIT "terminates the executing
+    procedure without commit"; an error rolls back) -/
+def Outcome.commits : Outcome → Bool
+  | .normal => true
+  | _ => false
+
 def St.obs (s : St) (o : Outcome) : Obs := ⟨s.out.reverse, o, s.blocks.map Block.vars⟩
 
 /-- Processor.Execute on a new session -/
